@@ -151,17 +151,14 @@ def execute(hb, sb, items, workdir):
             if b["rep0"] == "stale":
                 with open(rpath, "wb") as f:
                     f.write(stale)
-            args = []
             cinp = inp
-            if inp["flag"]:
-                args += ["--path", pathof[inp["flag"]]]
+            args = bindrive.spell_args(pathof[inp["flag"]] if inp["flag"] else "", "../cfg.toml" if inp["toml"] else "", inp)
             if inp["toml"]:
                 t = inp["toml"][0]
                 with open(os.path.join(root, "cfg.toml"), "w") as f:
                     f.write("path = %s\n" % json.dumps(pathof[t["path"]]))
                     for k in ("optimizations", "vulnerabilities", "qa"):
                         f.write("%s = [%s]\n" % (k, ", ".join(json.dumps(n) for n in t[k])))
-                args += ["--toml", "../cfg.toml"]
             before = bindrive.snapshot(root)
             code, err = bindrive.run_solstat(sb, work, args)
             after = bindrive.snapshot(root)
